@@ -35,6 +35,7 @@ type hashmap struct {
 	table   map[int]*entry
 	length  int // number of entries in map
 	order   []*entry
+	cell    value
 }
 
 type hashmapIter struct {
@@ -82,6 +83,7 @@ type oentry struct {
 }
 
 type omap struct {
+	cell  value // identity of the map for access tracing
 	idx   map[value]*oentry
 	order []*oentry
 	live  int
